@@ -30,7 +30,8 @@ add("C19", "RX+BSTR",
     "exact-backtracking-order symbolic matcher (z3 ints) for the selected parse",
     "For every pattern of a bounded grammar, rendered through the current templates: for ALL segment values "
     "within the length bound the emitted helpers are mutual inverses, and the emitted regex language equals "
-    "the pattern's reference language (bounded SMT verdict, counterexamples replayed on the emitted code).",
+    "the pattern's reference language (bounded SMT verdict, counterexamples replayed on the emitted code); every resource "
+    "the API uses (incl. LRO-only and file-level ones) gets its helper pair.",
     "DESIGN.md section 5 C19",
     "Patterns are enumerated (grammar), values are symbolic up to the stated lengths; values are non-empty, "
     "delimiter-free ('/' allowed in trailing **), newline-free; trusted: z3, CPython sre parser, the RX/BSTR "
@@ -41,10 +42,11 @@ add("C07", "CH",
     "emitted pagers.py loaded unmodified over symbolic page histories",
     "For ALL proto types/labels/presence patterns the classification equals the AIP-4233 sentence; for ALL server "
     "page histories within the bound the emitted sync and async pagers yield the items in order, thread tokens, keep "
-    "request/options, stop at the first empty token and expose the most recent page (CrossHair 'Confirmed over all "
+    "request/options, stop at the first empty token and expose the most recent page; the emitted list method hands the "
+    "pager the wrapped rpc, the request it sent, the first page and the caller's options (CrossHair 'Confirmed over all "
     "paths'; counterexamples replayed in plain Python).",
     "DESIGN.md section 5 C07",
-    "Bounds: <=3 pages x <=2 items quick (5 x 3 thorough), tokens <=2 chars. Message classes are pure-Python stand-ins "
+    "Bounds: <=3 pages x <=2 items quick (4 x 2 thorough), tokens <=2 chars. Message classes are pure-Python stand-ins "
     "(lib/fakes.py); descriptors are SimpleNamespace stand-ins. Trusted: CrossHair 0.0.110 + z3 (guarded by a "
     "reachability twin and in-memory mutant canaries each run).")
 
@@ -110,11 +112,12 @@ add("C20", "BSTR",
     "changes only trailing blanks / blank lines (normal-form equality, the surrogate for 'AST unchanged'). Docstring "
     "guard: for ALL texts within the bound the real rst()+wrap() output cannot terminate a triple-quoted literal early "
     "(Python tokenizer rule encoded in z3). Re-flow: for ALL texts of two bounded families and several (width, indent, "
-    "offset) settings the real wrap() never drops, duplicates or reorders a word (textwrap replaced by a validated model).",
+    "offset) settings the real wrap() never drops, duplicates or reorders a word and every output line fits the width "
+    "(first line: width - offset) unless it is a single unbreakable word (textwrap replaced by a validated model).",
     "DESIGN.md section 5 C20",
     "Family U: all strings <= 6 (quick) / 8 chars over an 8-character alphabet; family S: structured strings up to ~20 "
     "chars; rst and wrap texts <= 6 / 8 chars. textwrap is replaced by a step-by-step model validated against the real module on "
-    "each run; wrap()'s width clause, texts whose over-long first line has tabs/leading blanks (known finding F3), the pandoc "
+    "each run; texts whose over-long first line has tabs/leading blanks (known finding F3), the pandoc "
     "branch and Metadata.doc are outside the claim. Trusted: z3, sre "
     "parser, the BSTR engine (validated against the real functions on concrete strings every run).")
 
@@ -124,11 +127,12 @@ add("C12", "BSTR+CH",
     "For EVERY identifier within the length bound each renamer (Field.name, convert_uri_fieldnames, HttpRule body, "
     "FieldHeader.disambiguated, client_method_name, transport_safe_name) renames iff reserved, by exactly one '_', per "
     "dotted segment, leaving the rest of its input (the wire-side text) untouched; file-name disambiguation ends outside "
-    "the forbidden and visited sets; the module bound by the rendered import equals the head of the rendered reference.",
+    "the forbidden and visited sets; the module bound by the rendered import equals the head of the rendered reference; flattened reserved-name "
+    "parameters reach the wire under the original key (emitted client, CrossHair).",
     "DESIGN.md section 5 C12",
     "Identifiers <= 22 chars over [a-z_] (RPC names <= 16 over [A-Za-z_]), dotted paths <= 3 segments; file and module "
     "names from stated menus. That the renamed entity is importable/reachable and the wire shows the original is observed "
-    "only through the C05 client harness (class_/from_), otherwise outside the claim.")
+    "only through the client harness (class_/from_ flattened calls and the stub table diff), otherwise outside the claim.")
 
 add("C04", "BSTR+CH (+ concrete table diff)",
     "BSTR symbolic execution of convert_uri_fieldnames / HttpRule body / Method.path_params; CrossHair on the emitted "
@@ -137,7 +141,8 @@ add("C04", "BSTR+CH (+ concrete table diff)",
     "variable segments and the body; for ALL presence patterns of the query keys the emitted code adds exactly the typed "
     "defaults of required scalar non-path non-body fields and the numeric-enum marker; for ALL (verb, path-variable "
     "subset, body kind) query_params/path_params equal the reference split. The emitted option tables equal the rule "
-    "bindings in order (concrete diff, labelled as such).",
+    "bindings in order (concrete diff, labelled as such); the emitted _get_response of every REST method sends a payload "
+    "iff its binding declares a body, for every verb.",
     "DESIGN.md section 5 C04",
     "URL expansion, query flattening, JSON encoding and reply parsing are api_core/protobuf/requests code and outside "
     "the claim; json_format/json are pass-through stubs. Dotted path variables in path_params and defaults of "
@@ -203,9 +208,10 @@ add("C14", "CH+RX (+ concrete diff)",
     "Bookkeeping clause: for ALL marker layouts of a 12/16-line sample the six segments and full_snippet are exactly the line "
     "ranges between the markers; every tag the generator can build from identifier-shaped names is in the documented "
     "format. Per program: one sync+async sample per RPC, unique matching tags, samples compile, request set-up assigns only "
-    "real field paths, docstring snippet and metadata entry match the file (concrete).",
+    "real field paths, docstring snippet and metadata entry (names, segments, parameter names vs the emitted client "
+    "signature, per-service host) match the file (concrete).",
     "DESIGN.md section 5 C14",
-    "Executing the samples against a server and the metadata's parameter/result types are outside the claim; the "
+    "Executing the samples against a server and the TYPES recorded in the metadata are outside the claim; the "
     "docstring comparison ignores blank lines (the formatter may drop them inside string literals, C20).")
 
 add("C10", "z3 strings + site inventory + multi-seed replay",
